@@ -209,6 +209,13 @@ Section U.
           apply is_empty_inv; assumption.
   Qed.
 
+  (* projections of an equation between observations, stated for variables: [injection] on the instance with the unfolded undo_move term
+     takes minutes *)
+  Lemma obs_fields a b : obs a = obs b ->
+    r_side a = r_side b /\ r_hmc a = r_hmc b /\ r_ply a = r_ply b /\ r_board a = r_board b /\ r_castling a = r_castling b /\
+    r_ep a = r_ep b /\ r_key a = r_key b /\ r_hist a = r_hist b.
+  Proof. unfold obs. intro H. injection H as H1 H2 H3 H4 H5 H6 H7 H8. repeat split; assumption. Qed.
+
   (* two states with the list invariant and the same board have the same piece lists up to order *)
   Lemma lists_perm s1 s2 pc : piece_inv zt s1 -> piece_inv zt s2 -> r_board s1 = r_board s2 -> 1 <= pc <= 12 ->
     Permutation (nthd (r_lists s1) pc []) (nthd (r_lists s2) pc []).
@@ -228,7 +235,7 @@ Section U.
     assert (Hk : key_ok zt s) by (split; [exact Hkc|exact Hke]).
     pose proof (undo_do_legal zt s m Hok Hk H) as Hobs.
     apply lists_perm; [apply undo_do_piece_inv; assumption|exact Hp| |exact Hpc].
-    unfold obs in Hobs. injection Hobs as _ _ _ Eb _ _ _ _. exact Eb.
+    exact (proj1 (proj2 (proj2 (proj2 (obs_fields _ _ Hobs))))).
   Qed.
   (* the bitboards are functions of the board: two states with the invariant and the same board have the same two families *)
   Lemma fam_eq (F1 F2 : list N) n b proj : fam_sound F1 n b proj -> fam_sound F2 n b proj -> F1 = F2.
@@ -254,7 +261,7 @@ Section U.
     assert (Hk : key_ok zt s) by (split; [exact Hkc|exact Hke]).
     pose proof (undo_do_legal zt s m Hok Hk H) as Hobs.
     apply bitboards_eq; [apply undo_do_piece_inv; assumption|exact Hp|].
-    unfold obs in Hobs. injection Hobs as _ _ _ Eb _ _ _ _. exact Eb.
+    exact (proj1 (proj2 (proj2 (proj2 (obs_fields _ _ Hobs))))).
   Qed.
   (* ... and with it the whole key invariant: after a take-back the key is again the scratch key and the closed function of the position *)
   Theorem undo_do_key_inv s m : rep_ok s -> key_inv zt s -> pseudo_legal (rep_abs s) m = true ->
@@ -262,7 +269,7 @@ Section U.
   Proof.
     intros Hok Hki H. destruct (Hki) as [Hp [Hke [Hkc Hcol]]].
     assert (Hk : key_ok zt s) by (split; [exact Hkc|exact Hke]).
-    pose proof (undo_do_legal zt s m Hok Hk H) as Hobs. unfold obs in Hobs. injection Hobs as Es _ _ _ Ec Ee Ekey _.
+    pose proof (undo_do_legal zt s m Hok Hk H) as Hobs. destruct (obs_fields _ _ Hobs) as [Es [_ [_ [_ [Ec [Ee [Ekey _]]]]]]].
     split; [apply undo_do_piece_inv; assumption|]. unfold scalar_inv. rewrite Ekey, Ee, Ec, Es. split; [exact Hke|split; [exact Hkc|exact Hcol]].
   Qed.
 End U.
